@@ -362,6 +362,42 @@ func c07Mutate(seed []byte, c c07Case) ([]byte, bool) {
 		return nil, false
 	found:
 		_ = 0
+	case "oindent":
+		// A-th residue line of an ORIGIN block: B>0 adds B leading blanks, B<0 removes -B of them
+		ls := lineSpans(data)
+		k, in := -1, false
+		for _, l := range ls {
+			line := data[l[0]:l[1]]
+			if bytes.HasPrefix(line, []byte("ORIGIN")) {
+				in = true
+				continue
+			}
+			if bytes.HasPrefix(line, []byte("//")) {
+				in = false
+			}
+			if !in {
+				continue
+			}
+			k++
+			if k != c.A {
+				continue
+			}
+			var nl []byte
+			if c.B > 0 {
+				nl = append(bytes.Repeat([]byte{' '}, c.B), line...)
+			} else {
+				n := -c.B
+				if n > len(line) || len(bytes.TrimLeft(line[:n], " ")) != 0 {
+					return nil, false
+				}
+				nl = append([]byte{}, line[n:]...)
+			}
+			data = append(append(append([]byte(nil), data[:l[0]]...), nl...), data[l[1]:]...)
+			goto oifound
+		}
+		return nil, false
+	oifound:
+		_ = 0
 	case "dblinkval":
 		// A-th "db: id" line of a DBLINK field (the field line or one of its continuation lines): the id replaced by
 		// nothing (B=0: the line ends at the colon) or by blanks only (B=1: one blank, 2: three blanks, 3: blank and tab)
@@ -804,6 +840,24 @@ func init() {
 					}
 					for _, w := range []int{1, 2, 5} {
 						eval(c07Case{Kind: "scan", Seed: name, Mut: "widen", A: i, B: w}, 200000+i)
+					}
+				}
+				// leading blanks of the residue lines of ORIGIN grown and shrunk (first lines, and the last two)
+				{
+					nol := 0
+					for ; ; nol++ {
+						if _, ok := c07Mutate(seed, c07Case{Kind: "scan", Seed: name, Mut: "oindent", A: nol, B: 1}); !ok {
+							break
+						}
+					}
+					for i := 0; i < nol; i++ {
+						if i >= 3 && i < nol-2 && !thorough {
+							continue
+						}
+						for _, d := range []int{1, 2, 3, 8, -1, -2, -3} {
+							eval(c07Case{Kind: "scan", Seed: name, Mut: "oindent", A: i, B: d}, 200700+i)
+							eval(c07Case{Kind: "scan", Seed: name, Mut: "oindent", A: i, B: d, CRLF: true}, 200700+i)
+						}
 					}
 				}
 				for i := 0; i < bytes.Count(seed, []byte(":")); i++ {
